@@ -165,6 +165,43 @@ def TUP_LOOPS(header):
     return None
 
 
+def ENUM_LOOPS(header):
+    if "__ci <" in header:
+        return ("invariant __ci <= cases@.len(), __ci <= nvariants, results@.len() == __ci,\n"
+                "  forall|c: int| 0 <= c < results@.len() ==> is_get_chain(#[trigger] results@[c], cases@[c].vars@, *bvar, cases@[c].constructor, *ty, eunit_spec()),\n"
+                "decreases cases@.len() - __ci,")
+    if "__fi > 0" in header:
+        return ("invariant __fi <= case.vars@.len(), result == get_chain(case.vars@, *bvar, case.constructor, *ty, __fi as int, eunit_spec()),\n"
+                "decreases __fi,")
+    if "__ff <" in header:
+        return ("invariant __ff <= case.vars@.len(), result == get_chain_desc(case.vars@, *bvar, case.constructor, *ty, __ff as int, eunit_spec()),\n"
+                "decreases case.vars@.len() - __ff,")
+    return None
+
+
+def STRUCT_LOOPS(header):
+    if "__fi > 0" in header:
+        return ("invariant __fi <= field_vars@.len(), result == get_chain(field_vars@, *bvar, constructor, *ty, __fi as int, hole_g),\n"
+                "decreases __fi,")
+    if "__ff <" in header:
+        return ("invariant __ff <= field_vars@.len(), result == get_chain_desc(field_vars@, *bvar, constructor, *ty, __ff as int, hole_g),\n"
+                "decreases field_vars@.len() - __ff,")
+    if "__rv.len()" in header:
+        return ("invariant __rv@.len() <= rows0.len(), __rv@ == rows0.subrange(rows0.len() - __rv@.len(), rows0.len() as int), rows0 == rows@,\n"
+                "  new_rows@.len() == rows0.len() - __rv@.len(),\n"
+                f"  forall|k: int| 0 <= k < new_rows@.len() ==> (#[trigger] new_rows@[k]).body == rows0[k].body && new_rows@[k].columns@ == struct_cols(rows0[k].columns@, {V}, field_vars@, rows0[k].columns@.len() as int),\n"
+                "decreases __rv@.len(),")
+    if "__cv.len()" in header:
+        return ("invariant __cv@.len() <= cols0.len(), __cv@ == cols0.subrange(cols0.len() - __cv@.len(), cols0.len() as int),\n"
+                f"  cols@ == struct_cols(cols0, {V}, field_vars@, cols0.len() - __cv@.len()),\n"
+                "decreases __cv@.len(),")
+    if "__zi <" in header:
+        return ("invariant __zi <= field_vars@.len(), __zi + __za@.len() == args0.len(), __za@ == args0.subrange(__zi as int, args0.len() as int),\n"
+                "  cols@ == base + sub_field_cols(field_vars@, args0, __zi as int),\n"
+                "decreases __za@.len(),")
+    return None
+
+
 UNIT = Unit(
     name="U-ROWS",
     properties=["C06"],
@@ -419,5 +456,81 @@ UNIT = Unit(
                "invariant __rv@.len() <= rows0.len(), __rv@ == rows0.subrange(rows0.len() - __rv@.len(), rows0.len() as int), rows0 == rows@,\n"
                f"  new_rows@.len() == rows0.len() - __rv@.len(), forall|k: int| 0 <= k < new_rows@.len() ==> unit_row(rows0[k], {V}, #[trigger] new_rows@[k]),\n"
                "decreases __rv@.len(),")),
+        Adt(file="crates/compiler/src/env.rs", kw="struct", name="EnumDef", rules=["attrs", ("strip", "tast::")]),
+        Fn(file=CM, name="compile_enum_case", rename="enum_case_cases", ret="r", attrs="#[verifier::loop_isolation(false)]", rules=["attrs", ("strip", "tast::"), "iter_map_collect"],
+           cut_from="let cases: Vec<ConstructorCase> = tydef", cut_before="let mut results = Vec::new();", cut_tail="    cases",
+           sig="fn enum_case_cases(tydef: &EnumDef, name: &TastIdent, gensym: &Gensym, subst: HashMap<String, Ty>) -> Vec<ConstructorCase>",
+           pre_rewrites=[(re.compile(r"let cases: Vec<ConstructorCase> = tydef\s*\.variants\s*\.iter\(\)\s*\.enumerate\(\)\s*\.map\(\|\(index, \(variant, args\)\)\| (ConstructorCase \{.*?\n        \})\)\s*\.collect\(\);", re.S),
+                          r"let mut cases: Vec<ConstructorCase> = Vec::new(); let mut __vi: usize = 0; while __vi < tydef.variants.len() { let index = __vi; let (variant, args) = &tydef.variants[__vi]; let __c = \1; cases.push(__c); __vi += 1; }", 1),
+                         (re.compile(r"Constructor::Enum\(common::EnumConstructor \{\s*type_name: name\.clone\(\),\s*variant: variant\.clone\(\),\s*index,\s*\}\)"),
+                          "mk_enum_constructor(name.clone(), variant.clone(), index)", "*"),
+                         (re.compile(r"Constructor::Enum\(common::EnumConstructor \{\s*type_name: name\.clone\(\),\s*variant: variant\.clone\(\),\s*index: ([^,{}]+),\s*\}\)"),
+                          r"mk_enum_constructor(name.clone(), variant.clone(), \1)", "*")],
+           rewrites=[("rows: vec![],", "rows: Vec::new(),"), (re.compile(r"\.clone\(\)"), ".vclone()", "*")],
+           obligation="one case per variant of the enum, case i carrying the constructor with index i (compile_constructor_cases files a row under "
+                      "cases[index of the pattern's constructor]) and one fresh variable per field of variant i; no rows yet",
+           contract="""ensures r@.len() == tydef.variants@.len(),
+            forall|i: int| 0 <= i < r@.len() ==> ((#[trigger] r@[i]).constructor.enum_part() matches Some(e) && e.idx() == i && e.variant_name() == tydef.variants@[i].0)
+                && r@[i].vars@.len() == tydef.variants@[i].1@.len() && r@[i].rows@.len() == 0,""",
+           loop_fn=lambda k, header, kw: (
+               ("invariant __vi <= tydef.variants@.len(), cases@.len() == __vi,\n"
+                "  forall|i: int| 0 <= i < cases@.len() ==> ((#[trigger] cases@[i]).constructor.enum_part() matches Some(e) && e.idx() == i && e.variant_name() == tydef.variants@[i].0)\n"
+                "    && cases@[i].vars@.len() == tydef.variants@[i].1@.len() && cases@[i].rows@.len() == 0,\n"
+                "decreases tydef.variants@.len() - __vi,") if "__vi <" in header else
+               ("invariant __mi0 <= args@.len(), __mo0@.len() == __mi0,\ndecreases args@.len() - __mi0," if "__mi0 <" in header else None))),
+        Fn(file=CM, name="compile_enum_case", rename="enum_case_lets", ret="r", attrs="#[verifier::loop_isolation(false)]", rules=["attrs", ("strip", "tast::")],
+           cut_from="let mut results = Vec::new();", cut_before="let arms = compile_constructor_cases(", cut_tail="    results",
+           sig="fn enum_case_lets(cases: &Vec<ConstructorCase>, nvariants: usize, bvar: &Variable, ty: &Ty) -> Vec<core::Expr>",
+           pre_rewrites=[("for case in cases.iter().take(tydef.variants.len()) {", "let mut __ci: usize = 0; while __ci < cases.len() && __ci < nvariants { let case = &cases[__ci]; __ci += 1;"),
+                         ("for (field, var) in case.vars.iter().enumerate().rev() {", "let mut __fi: usize = case.vars.len(); while __fi > 0 { __fi -= 1; let field = __fi; let var = &case.vars[field];", "*"),
+                         ("for (field, var) in case.vars.iter().enumerate() {", "let mut __ff: usize = 0; while __ff < case.vars.len() { let field = __ff; let var = &case.vars[field]; __ff += 1;", "*")],
+           rewrites=[("let mut results = Vec::new();", "let mut results: Vec<core::Expr> = Vec::new();"), ("core::eunit()", "core_eunit()"), (re.compile(r"\.clone\(\)"), ".vclone()", "*")],
+           obligation="for every case: field i of the matched constructor is bound to the case's i-th fresh variable at that variable's type "
+                      "(`let x_i = bvar.<ctor>.i`), around a hole to be filled with the case's decision tree",
+           contract="""ensures r@.len() == min_len(cases@.len() as int, nvariants as int),
+            forall|c: int| 0 <= c < r@.len() ==> is_get_chain(#[trigger] r@[c], cases@[c].vars@, *bvar, cases@[c].constructor, *ty, eunit_spec()),""",
+           loop_fn=lambda k, header, kw: ENUM_LOOPS(header)),
+        Fn(file=CM, name="compile_enum_case", rename="enum_case_tail", ret="r", attrs="#[verifier::loop_isolation(false)]", rules=["attrs", ("strip", "tast::")],
+           cut_from="let mut new_arms = vec![];",
+           sig="fn enum_case_tail(results: Vec<core::Expr>, arms: Vec<core::Arm>, bvar: &Variable, body_ty: Ty) -> core::Expr",
+           pre_rewrites=[("for (mut res, mut arm) in results.into_iter().zip(arms.into_iter()) {",
+                          "let ghost res0 = results@; let ghost arms0 = arms@; let mut __rs = results; let mut __as = arms; "
+                          "while __rs.len() > 0 && __as.len() > 0 { let mut res = __rs.remove(0); let mut arm = __as.remove(0);")],
+           rewrites=[("let mut new_arms = vec![];", "let mut new_arms: Vec<core::Arm> = Vec::new();")],
+           obligation="arm c of the switch keeps its constructor pattern and gets, as body, case c's field bindings around case c's decision tree; no default",
+           contract="""ensures r matches core::Expr::EMatch { expr, arms: na, default, ty: _ } && *expr == var_core(*bvar) && default is None
+                && na@.len() == min_len(results@.len() as int, arms@.len() as int)
+                && forall|c: int| 0 <= c < na@.len() ==> (#[trigger] na@[c]).lhs == arms@[c].lhs && na@[c].body == replace_tail(results@[c], arms@[c].body),""",
+           loop_fn=lambda k, header, kw: (
+               "invariant __rs@.len() <= res0.len(), __as@.len() <= arms0.len(), res0 == results@, arms0 == arms@, new_arms@.len() + __rs@.len() == res0.len(), new_arms@.len() + __as@.len() == arms0.len(),\n"
+               "  __rs@ == res0.subrange(new_arms@.len() as int, res0.len() as int), __as@ == arms0.subrange(new_arms@.len() as int, arms0.len() as int),\n"
+               "  forall|c: int| 0 <= c < new_arms@.len() ==> (#[trigger] new_arms@[c]).lhs == arms0[c].lhs && new_arms@[c].body == replace_tail(res0[c], arms0[c].body),\n"
+               "decreases __rs@.len(),")),
+        Fn(file=CM, name="compile_struct_case", rename="struct_case_body", ret="r", attrs="#[verifier::loop_isolation(false)]\n#[verifier::rlimit(60)]", rules=["attrs", ("strip", "tast::")],
+           cut_from="let hole = core::eunit();",
+           sig="fn struct_case_body(genv: &GlobalTypeEnv, gensym: &Gensym, diagnostics: &mut Diagnostics, rows: Vec<Row>, bvar: &Variable, ty: &Ty, "
+               "field_vars: Vec<Variable>, constructor: Constructor, match_range: Option<TextRange>) -> core::Expr",
+           pre_rewrites=[
+               ("for (field_index, var) in field_vars.iter().enumerate().rev() {", "let mut __fi: usize = field_vars.len(); while __fi > 0 { __fi -= 1; let field_index = __fi; let var = &field_vars[field_index];", "*"),
+               ("for (field_index, var) in field_vars.iter().enumerate() {", "let mut __ff: usize = 0; while __ff < field_vars.len() { let field_index = __ff; let var = &field_vars[field_index]; __ff += 1;", "*"),
+               ("for row in rows {", "let ghost rows0 = rows@; let mut __rv = rows; while __rv.len() > 0 { let row = __rv.remove(0);"),
+               ("for Column { var, pat } in row.columns {", "let ghost cols0 = row.columns@; let mut __cv = row.columns; while __cv.len() > 0 { let Column { var, pat } = __cv.remove(0);"),
+               ("for (var, arg_pat) in field_vars.iter().zip(args.into_iter()) {",
+                "let ghost args0 = args@; let ghost base = cols@; let mut __za = args; let mut __zi: usize = 0; "
+                "while __zi < field_vars.len() && __za.len() > 0 { let var = &field_vars[__zi]; let arg_pat = __za.remove(0); __zi += 1;"),
+           ],
+           rewrites=[("let mut new_rows = vec![];", "let mut new_rows: Vec<Row> = Vec::new();"), ("let mut cols = vec![];", "let mut cols: Vec<Column> = Vec::new();"),
+                     ("let hole = core::eunit();", "let hole = core_eunit(); let ghost hole_g = hole;"), ("if var == bvar.name {", "if string_eq(&var, &bvar.name) {"),
+                     ('_ => unreachable!("expected struct pattern"),', "_ => { proof { assume(false); } }"), (re.compile(r"\.clone\(\)"), ".vclone()", "*"),
+                     (re.compile(r"let inner = compile_rows\("), "let inner = compile_rows_rec(", 1),
+                     (re.compile(r"\n    result\n\}\s*$"),
+                      "\n    proof { lemma_is_get_chain_tail(res_g, field_vars@, *bvar, constructor, *ty, hole_g, rows_core(new_rows@, *ty)); "
+                      "assert(struct_case_of(result, rows@, *bvar, field_vars@, constructor, *ty, new_rows@)); }\n    result\n}", 1)],
+           obligation="field i of the struct scrutinee is bound to the i-th field variable (`let x_i = bvar.<Struct>.i`) around the decision tree of the "
+                      "rewritten matrix: same rows, same order, same bodies, each column on the struct variable replaced in place by one column per "
+                      "field pattern (field pattern i against x_i), other columns kept",
+           contract="ensures exists|rs: Seq<Row>| #[trigger] struct_case_of(r, rows@, *bvar, field_vars@, constructor, *ty, rs),",
+           ghost=[("let mut new_rows", "line-before", "let ghost res_g = result;")],
+           loop_fn=lambda k, header, kw: STRUCT_LOOPS(header)),
     ],
 )
